@@ -67,6 +67,9 @@ type c27Ev struct {
 	Before []any // nil = absent; values: nil, int64, float64, string, []byte
 	After  []any
 	Err    string
+	// observed events only: the JSON values in column order (what the oracle compares)
+	RawBefore []json.RawMessage
+	RawAfter  []json.RawMessage
 }
 
 func c27Tok(v any) string {
@@ -318,10 +321,15 @@ func c27Diff(before, after map[string]map[int64]c27Row, kind string) []c27Ev {
 }
 
 // expected groups: per group, per statement, the (sorted) events
+type c27ReqExpect struct {
+	groups     [][][]c27Ev
+	undoneInTx bool // a statement failed inside an explicit transaction that then committed
+	failedAuto bool // an autocommit statement failed, or an explicit transaction was rolled back, with more statements in the request
+}
 type c27Expect struct {
-	groups       [][][]c27Ev
-	undoneInTx   bool // a statement failed inside an explicit transaction that then committed
-	failedAuto   bool // an autocommit statement failed
+	reqs         []*c27ReqExpect
+	undoneInTx   bool
+	failedAuto   bool
 	failedStmts  int
 	multiRowStmt int
 }
@@ -351,6 +359,8 @@ func c27Shadow(in c27Input) (*c27Expect, error) {
 		inTx := false
 		var pending [][]c27Ev
 		failedInThisTx := false
+		rx := &c27ReqExpect{}
+		ex.reqs = append(ex.reqs, rx)
 		commit := func() {
 			var g [][]c27Ev
 			n := 0
@@ -361,10 +371,10 @@ func c27Shadow(in c27Input) (*c27Expect, error) {
 				}
 			}
 			if n > 0 {
-				ex.groups = append(ex.groups, g)
+				rx.groups = append(rx.groups, g)
 			}
 			if failedInThisTx {
-				ex.undoneInTx = true
+				ex.undoneInTx, rx.undoneInTx = true, true
 			}
 			pending, failedInThisTx = nil, false
 		}
@@ -415,6 +425,7 @@ func c27Shadow(in c27Input) (*c27Expect, error) {
 				if xerr == nil {
 					inTx = false
 					pending, failedInThisTx = nil, false
+					rx.failedAuto = true // its rows were undone by a transaction rollback, like a failed autocommit statement
 				}
 			default:
 				d := c27Diff(before, after, s.Kind)
@@ -428,7 +439,7 @@ func c27Shadow(in c27Input) (*c27Expect, error) {
 					pending = append(pending, d)
 				} else {
 					if xerr != nil {
-						ex.failedAuto = true
+						ex.failedAuto, rx.failedAuto = true, true
 					}
 					pending = [][]c27Ev{d}
 					commit()
@@ -523,11 +534,12 @@ func c27Run(w *vWriter, in c27Input) {
 	})
 	c27RegisterRollback(B.db, B.st, func() { trace = append(trace, "Rollback") })
 
-	var observed [][]c27Ev    // per group
+	var observed [][][]c27Ev  // per request, per group
 	var obsCoq []string       // per group
 	var obsProblems []string  // JSON-level problems
 	for i, r := range in.Reqs {
 		trace = append(trace, "Reset")
+		observed = append(observed, nil)
 		if err := A.exec(r, uint64(i+10)); err != nil && !r.Tx {
 			_ = err
 		}
@@ -593,12 +605,26 @@ func c27Run(w *vWriter, in c27Input) {
 					e.Before = conv(je.Before, pe.OldRow)
 					e.After = conv(je.After, pe.NewRow)
 				}
+				rawRow := func(m map[string]json.RawMessage) []json.RawMessage {
+					if m == nil {
+						return nil
+					}
+					out := make([]json.RawMessage, 0, len(m))
+					for _, cn := range cols {
+						out = append(out, m[cn]) // nil when the column is missing
+					}
+					if len(m) != len(cols) {
+						out = append(out, json.RawMessage(`"?wrong-number-of-columns"`))
+					}
+					return out
+				}
+				e.RawBefore, e.RawAfter = rawRow(je.Before), rawRow(je.After)
 				grp = append(grp, e)
 				coq = append(coq, fmt.Sprintf("{| j_op := %s; j_table := %s; j_new := %s; j_old := %s; j_before := %s; j_after := %s; j_err := %s |}",
 					coqStr(e.Op), coqStr(e.Table), coqZ(e.New), coqZ(e.Old),
 					c27CoqOptPairs(cols, c27Toks(e.Before)), c27CoqOptPairs(cols, c27Toks(e.After)), coqStr(e.Err)))
 			}
-			observed = append(observed, grp)
+			observed[len(observed)-1] = append(observed[len(observed)-1], grp)
 			obsCoq = append(obsCoq, coqList(coq))
 		}
 	}
@@ -609,102 +635,104 @@ func c27Run(w *vWriter, in c27Input) {
 		w.Emit(VCase{Input: in, Key: key, Inconcl: "shadow: " + err.Error()})
 		return
 	}
-	// project the expectation through the settings
-	var want [][][]c27Ev
-	for _, g := range ex.groups {
-		var pg [][]c27Ev
-		n := 0
-		for _, st := range g {
-			var ps []c27Ev
-			for _, e := range st {
-				if re != nil && !re.MatchString(e.Table) {
-					continue
-				}
-				if in.IDsOnly {
-					e.Before, e.After = nil, nil
-				}
-				ps = append(ps, e)
-			}
-			if len(ps) > 0 {
-				pg = append(pg, ps)
-				n += len(ps)
-			}
-		}
-		if n > 0 {
-			want = append(want, pg)
-		}
-	}
 	fail, sig := "", ""
 	note := func(f, s string) {
 		if fail == "" {
 			fail, sig = f, s
 		}
 	}
-	leakSig := func() string {
-		if ex.undoneInTx {
-			return "C27:undone-statement-rows-reported-at-commit"
-		}
-		if ex.failedAuto {
-			return "C27:undone-statement-rows-leak-into-next-group"
-		}
-		return ""
-	}
 	for _, p := range obsProblems {
 		note(p, "C27:marshal-problem")
 	}
 	opsSeen := map[string]bool{}
-	for gi := 0; gi < len(want) || gi < len(observed); gi++ {
-		if gi >= len(observed) {
-			note(fmt.Sprintf("group %d missing: expected %v", gi, want[gi]), "C27:events-differ:missing-group")
-			break
-		}
-		if gi >= len(want) {
-			s := "C27:events-differ:extra-group"
-			if l := leakSig(); l != "" {
-				s = l
-			}
-			note(fmt.Sprintf("extra group %d: %v", gi, observed[gi]), s)
-			break
-		}
-		got := observed[gi]
-		pos := 0
-		for _, st := range want[gi] {
-			if pos+len(st) > len(got) {
-				note(fmt.Sprintf("group %d: events missing; expected statement events %v, delivered group %v", gi, st, got), "C27:events-differ:missing-event")
-				break
-			}
-			seg := append([]c27Ev{}, got[pos:pos+len(st)]...)
-			sort.SliceStable(seg, func(i, j int) bool { return c27SortKey(seg[i]) < c27SortKey(seg[j]) })
-			for k := range st {
-				opsSeen[st[k].Op] = true
-				if f, s := c27Cmp(st[k], seg[k], in); f != "" {
-					if l := leakSig(); l != "" && (s == "C27:events-differ:wrong-op" || s == "C27:events-differ:wrong-ids") {
-						s = l
+	nGroups := 0
+	for ri, rx := range ex.reqs {
+		// project the expectation through the settings
+		var want [][][]c27Ev
+		for _, g := range rx.groups {
+			var pg [][]c27Ev
+			n := 0
+			for _, st := range g {
+				var ps []c27Ev
+				for _, e := range st {
+					if re != nil && !re.MatchString(e.Table) {
+						continue
 					}
-					note(fmt.Sprintf("group %d: %s", gi, f), s)
+					if in.IDsOnly {
+						e.Before, e.After = nil, nil
+					}
+					ps = append(ps, e)
+				}
+				if len(ps) > 0 {
+					pg = append(pg, ps)
+					n += len(ps)
 				}
 			}
-			pos += len(st)
-		}
-		if fail == "" && pos < len(got) {
-			s := "C27:events-differ:extra-event"
-			if l := leakSig(); l != "" {
-				s = l
+			if n > 0 {
+				want = append(want, pg)
 			}
-			note(fmt.Sprintf("group %d: %d event(s) more than the rows changed: %v", gi, len(got)-pos, got[pos:]), s)
+		}
+		nGroups += len(want)
+		var got [][]c27Ev
+		if ri < len(observed) {
+			got = observed[ri]
+		}
+		// a request in which a statement was undone: any difference in what it delivered is that defect
+		classify := func(s string) string {
+			if rx.undoneInTx {
+				return "C27:undone-statement-rows-reported-at-commit"
+			}
+			if rx.failedAuto && s != "C27:events-differ:wrong-values" {
+				return "C27:undone-statement-rows-leak-into-next-group"
+			}
+			return s
+		}
+		for gi := 0; gi < len(want) || gi < len(got); gi++ {
+			if gi >= len(got) {
+				note(fmt.Sprintf("request %d: group %d missing: expected %v", ri, gi, want[gi]), classify("C27:events-differ:missing-group"))
+				break
+			}
+			if gi >= len(want) {
+				note(fmt.Sprintf("request %d: extra group %d: %v", ri, gi, got[gi]), classify("C27:events-differ:extra-group"))
+				break
+			}
+			pos := 0
+			for _, st := range want[gi] {
+				if pos+len(st) > len(got[gi]) {
+					note(fmt.Sprintf("request %d group %d: events missing; expected statement events %v, delivered group %v", ri, gi, st, got[gi]), classify("C27:events-differ:missing-event"))
+					break
+				}
+				seg := append([]c27Ev{}, got[gi][pos:pos+len(st)]...)
+				sort.SliceStable(seg, func(i, j int) bool { return c27SortKey(seg[i]) < c27SortKey(seg[j]) })
+				for k := range st {
+					opsSeen[st[k].Op] = true
+					if f, s := c27Cmp(st[k], seg[k], in); f != "" {
+						note(fmt.Sprintf("request %d group %d: %s", ri, gi, f), classify(s))
+					}
+				}
+				pos += len(st)
+			}
+			if fail == "" && pos < len(got[gi]) {
+				note(fmt.Sprintf("request %d group %d: %d event(s) more than the rows changed: %v", ri, gi, len(got[gi])-pos, got[gi][pos:]), classify("C27:events-differ:extra-event"))
+			}
+			if fail != "" {
+				break
+			}
 		}
 		if fail != "" {
 			break
 		}
 	}
 	// settings, checked on everything delivered
-	for _, g := range observed {
-		for _, e := range g {
-			if in.IDsOnly && (e.Before != nil || e.After != nil) {
-				note("row-ids-only, but values delivered: "+e.String(), "C27:values-in-ids-only-mode")
-			}
-			if re != nil && !re.MatchString(e.Table) {
-				note("table does not match the filter: "+e.String(), "C27:filtered-table-delivered")
+	for _, rg := range observed {
+		for _, g := range rg {
+			for _, e := range g {
+				if in.IDsOnly && (e.RawBefore != nil || e.RawAfter != nil) {
+					note("row-ids-only, but values delivered: "+e.String(), "C27:values-in-ids-only-mode")
+				}
+				if re != nil && !re.MatchString(e.Table) {
+					note("table does not match the filter: "+e.String(), "C27:filtered-table-delivered")
+				}
 			}
 		}
 	}
@@ -764,7 +792,7 @@ func c27Run(w *vWriter, in c27Input) {
 	if in.NoModel {
 		c.Tags = append(c.Tags, "schema-change")
 	}
-	c.Tags = append(c.Tags, fmt.Sprintf("groups=%d", len(want)))
+	c.Tags = append(c.Tags, fmt.Sprintf("groups=%d", nGroups))
 	if fail != "" {
 		c.OracleFail, c.Sig = fail, sig
 	}
@@ -787,11 +815,22 @@ func c27Cmp(want, got c27Ev, in c27Input) (string, string) {
 	if want.Old != got.Old || want.New != got.New {
 		return fmt.Sprintf("expected %s, delivered %s", want, got), "C27:events-differ:wrong-ids"
 	}
-	if !reflect.DeepEqual(c27Toks(want.Before), c27Toks(got.Before)) || !reflect.DeepEqual(c27Toks(want.After), c27Toks(got.After)) {
-		if in.IDsOnly && (got.Before != nil || got.After != nil) {
+	same := func(w []any, raw []json.RawMessage) bool {
+		if (w == nil) != (raw == nil) || len(w) != len(raw) {
+			return false
+		}
+		for i := range w {
+			if raw[i] == nil || !c27JSONIs(raw[i], w[i]) {
+				return false
+			}
+		}
+		return true
+	}
+	if !same(want.Before, got.RawBefore) || !same(want.After, got.RawAfter) {
+		if in.IDsOnly && (got.RawBefore != nil || got.RawAfter != nil) {
 			return "row-ids-only, but values delivered: " + got.String(), "C27:values-in-ids-only-mode"
 		}
-		return fmt.Sprintf("expected %s, delivered %s", want, got), "C27:events-differ:wrong-values"
+		return fmt.Sprintf("expected %s, delivered %s (JSON before=%s after=%s)", want, got, got.RawBefore, got.RawAfter), "C27:events-differ:wrong-values"
 	}
 	return "", ""
 }
@@ -860,7 +899,9 @@ func (g *c27Gen) stmt() c27Stmt {
 		or := g.pick("", "", "", " OR IGNORE", " OR FAIL", " OR REPLACE")
 		kind := "insert"
 		if or == " OR REPLACE" {
+			// one row only: a row inserted and replaced again inside one statement is invisible to the shadow diff
 			kind = "replace"
+			rows = []string{fmt.Sprintf("(%s,%s,%s,%s,%s,%s)", g.id(), g.name(), g.intLit(), g.realLit(), g.blobLit(), g.u())}
 		}
 		return c27Stmt{SQL: "INSERT" + or + " INTO items(id,name,qty,price,data,note) VALUES " + strings.Join(rows, ","), Kind: kind}
 	case x < 42: // insert into logs
@@ -872,7 +913,8 @@ func (g *c27Gen) stmt() c27Stmt {
 		}
 		return c27Stmt{SQL: "INSERT INTO logs(msg,lvl) VALUES " + strings.Join(rows, ","), Kind: "insert"}
 	case x < 48:
-		return c27Stmt{SQL: fmt.Sprintf("INSERT OR REPLACE INTO aux_tbl(k,v) VALUES (%d,%s),(%d,%s)", 1+g.rng.Intn(3), g.anyLit(), 1+g.rng.Intn(3), g.anyLit()), Kind: "replace"}
+		k := 1 + g.rng.Intn(3)
+		return c27Stmt{SQL: fmt.Sprintf("INSERT OR REPLACE INTO aux_tbl(k,v) VALUES (%d,%s),(%d,%s)", k, g.u(), k+1+g.rng.Intn(2), g.u()), Kind: "replace"}
 	case x < 62: // update items, range
 		a := 1 + g.rng.Intn(8)
 		set := "note = " + g.u()
@@ -1022,6 +1064,8 @@ func c27Probe(w *vWriter, which string) {
 		r = c27Req{Tx: true, Stmts: []c27Stmt{{SQL: "CREATE TABLE fresh (k INTEGER PRIMARY KEY, v)"}, {SQL: "INSERT INTO fresh VALUES (1,'x')"}}}
 		wantKeys = 2
 	case "insert-after-add-column":
+		// a first event makes the read connection load the schema; then the schema changes
+		A.exec(c27Req{Stmts: []c27Stmt{{SQL: "INSERT INTO logs(msg,lvl) VALUES ('before',0)"}}}, 4)
 		A.exec(c27Req{Stmts: []c27Stmt{{SQL: "ALTER TABLE logs ADD COLUMN extra"}}}, 5)
 		A.drain()
 		r = c27Req{Stmts: []c27Stmt{{SQL: "INSERT INTO logs(msg,lvl,extra) VALUES ('m',1,'e')"}}}
@@ -1077,8 +1121,11 @@ func TestVerif_C27(t *testing.T) {
 	}
 	c27Probe(w, "create-table-and-insert-in-one-transaction")
 	c27Probe(w, "insert-after-add-column")
-	n := vN(600, 20000)
+	n := vN(300, 5000)
 	for i := 0; i < n; i++ {
 		c27Run(w, c27GenInput(rng))
+		w.mu.Lock()
+		w.w.Flush() // keep what was explored if the run is cut short
+		w.mu.Unlock()
 	}
 }
